@@ -340,8 +340,69 @@ Example strategy_nonvacuous :
 Proof. vm_compute. repeat split. Qed.
 
 (* ------------------------------------------------------------------------------------------------ *)
-(* schema[type][field] with the cache keyed by field name                                            *)
 Definition spec_of (c : client) (p : str * str) : lres := lookup_spec c (fst p) (snd p).
+
+(* schema[type][field] with the cache keyed by type.field (fe80b0ba)                                   *)
+Lemma mk_label_inj a : forall b x y,
+  mem dot a = false -> mem dot b = false -> mk_label a x = mk_label b y -> a = b /\ x = y.
+Proof.
+  unfold mk_label, mem. induction a as [|c a IH]; intros b x y Ha Hb E; destruct b as [|d b]; cbn [app existsb] in *.
+  - injection E as E. auto.
+  - injection E as E1 E2. subst d. rewrite N.eqb_refl in Hb. discriminate.
+  - injection E as E1 E2. subst c. rewrite N.eqb_refl in Ha. discriminate.
+  - injection E as E1 E2. subst d. apply orb_false_iff in Ha. apply orb_false_iff in Hb.
+    destruct (IH b x y (proj2 Ha) (proj2 Hb) E2) as [H1 H2]. subst. auto.
+Qed.
+
+Lemma root_by_name_spec c key r ct :
+  root_by_name c key = Some (r, ct) ->
+  ct_name ct = key /\ ((c_query c = Some ct /\ r = RQuery) \/ (c_mutation c = Some ct /\ r = RMutation)).
+Proof.
+  unfold root_by_name. intros H.
+  destruct (c_query c) as [qt|]; destruct (c_mutation c) as [mt|];
+    repeat match type of H with
+    | context [str_eqb ?a ?b] => let E := fresh "E" in destruct (str_eqb a b) eqn:E
+    end; try discriminate; injection H as H1 H2; subst;
+    match goal with E : str_eqb _ _ = true |- _ => apply str_eqb_spec in E end; auto.
+Qed.
+
+Lemma root_dotless c key r ct :
+  root_names_dotless c = true -> root_by_name c key = Some (r, ct) -> mem dot key = false.
+Proof.
+  intros Hd H. destruct (root_by_name_spec c key r ct H) as [Hn Hc]. subst key.
+  unfold root_names_dotless in Hd. apply andb_true_iff in Hd. destruct Hd as [Hq Hm]. unfold dotless in *.
+  destruct Hc as [[E _] | [E _]]; rewrite E in *; apply negb_true_iff; assumption.
+Qed.
+
+Lemma run_lookups_inv c h : root_names_dotless c = true -> forall ca,
+  (forall k o, cache_get k ca = Some o ->
+     exists key field, k = mk_label key field /\ mem dot key = false /\ lookup_spec c key field = LOp o) ->
+  run_lookups c ca h = map (spec_of c) h.
+Proof.
+  intros Hd. unfold run_lookups. induction h as [|[key field] rest IH]; intros ca Hinv; cbn [run_lookups_with map]; auto.
+  unfold lookup_with, spec_of at 1, lookup_spec. cbn [fst snd].
+  destruct (root_by_name c key) as [[r ct]|] eqn:R.
+  - destruct (root_by_name_spec c key r ct R) as [Hname _].
+    pose proof (root_dotless c key r ct Hd R) as Hkey.
+    unfold cache_key. replace (mk_label (ct_name ct) field) with (mk_label key field) by (rewrite Hname; reflexivity).
+    destruct (cache_get (mk_label key field) ca) as [o|] eqn:G.
+    + destruct (Hinv _ o G) as [key' [field' [Ek [Hk' Hs]]]].
+      destruct (mk_label_inj key key' field field' Hkey Hk' Ek) as [E1 E2]. subst key' field'.
+      unfold lookup_spec in Hs. rewrite R in Hs. f_equal; [exact (eq_sym Hs)|]. apply IH. exact Hinv.
+    + destruct (mem_str field (ct_fields ct)) eqn:M; f_equal; apply IH; auto.
+      intros k o' Hg. cbn [cache_get] in Hg. destruct (str_eqb (mk_label key field) k) eqn:E.
+      * apply str_eqb_spec in E. subst k. injection Hg as Hg. subst o'. exists key, field. repeat split; auto.
+        unfold lookup_spec. rewrite R, M. reflexivity.
+      * apply Hinv. exact Hg.
+  - f_equal. apply IH. exact Hinv.
+Qed.
+
+(* every history, same-named fields under both root types included *)
+Lemma lookups_full c h : root_names_dotless c = true -> run_lookups c [] h = map (spec_of c) h.
+Proof. intros Hd. apply run_lookups_inv; auto. intros k o Hg. discriminate. Qed.
+
+(* ------------------------------------------------------------------------------------------------ *)
+(* SENTINEL: schema[type][field] with the cache keyed by field name (before fe80b0ba)                                            *)
 
 Lemma hist_consistent_spec h :
   hist_consistent h = true -> forall p q, In p h -> In q h -> snd p = snd q -> fst p = fst q.
@@ -352,16 +413,16 @@ Proof.
   rewrite E' in H. cbn [implb] in H. apply str_eqb_spec. exact H.
 Qed.
 
-Lemma run_lookups_inv c h : forall seen ca,
+Lemma run_lookups_fk_inv c h : forall seen ca,
   (forall k o, cache_get k ca = Some o -> exists key, In (key, k) seen /\ lookup_spec c key k = LOp o) ->
   (forall p q, In p (seen ++ h) -> In q (seen ++ h) -> snd p = snd q -> fst p = fst q) ->
-  run_lookups c ca h = map (spec_of c) h.
+  run_lookups_fk c ca h = map (spec_of c) h.
 Proof.
-  induction h as [|[key field] rest IH]; intros seen ca Hinv Hcons; cbn [run_lookups map]; auto.
+  induction h as [|[key field] rest IH]; intros seen ca Hinv Hcons; cbn [run_lookups_fk run_lookups_with map]; auto.
   assert (Hcons' : forall p q, In p ((seen ++ [(key, field)]) ++ rest) -> In q ((seen ++ [(key, field)]) ++ rest) ->
                                snd p = snd q -> fst p = fst q).
   { intros p q. rewrite <- !app_assoc. cbn [app]. apply Hcons. }
-  unfold lookup, spec_of at 1, lookup_spec. cbn [fst snd].
+  unfold lookup_fk, lookup_with, cache_key_fk, spec_of at 1, lookup_spec. cbn [fst snd].
   destruct (root_by_name c key) as [[r ct]|] eqn:R.
   - destruct (cache_get field ca) as [o|] eqn:G.
     + destruct (Hinv field o G) as [key' [Hin Hs]].
@@ -389,24 +450,24 @@ Proof.
     apply in_or_app. left. exact Hin'.
 Qed.
 
-Lemma lookups_partial c h : hist_consistent h = true -> run_lookups c [] h = map (spec_of c) h.
+Lemma lookups_fk_partial c h : hist_consistent h = true -> run_lookups_fk c [] h = map (spec_of c) h.
 Proof.
-  intros H. apply (run_lookups_inv c h [] []).
+  intros H. apply (run_lookups_fk_inv c h [] []).
   - intros k o Hg. discriminate.
   - cbn [app]. apply hist_consistent_spec. exact H.
 Qed.
 
 (* a schema with a single root type never mixes operations up, whatever the history *)
-Lemma lookups_single_root c h :
-  c_mutation c = None -> run_lookups c [] h = map (spec_of c) h.
+Lemma lookups_fk_single_root c h :
+  c_mutation c = None -> run_lookups_fk c [] h = map (spec_of c) h.
 Proof.
   intros Hm.
   assert (G : forall h ca, (forall k o, cache_get k ca = Some o ->
                               exists ct, c_query c = Some ct /\ mem_str k (ct_fields ct) = true /\
                                          o = {| o_root := RQuery; o_type := ct_name ct; o_field := k |}) ->
-              run_lookups c ca h = map (spec_of c) h).
-  { clear h. induction h as [|[key field] rest IH]; intros ca Hinv; cbn [run_lookups map]; auto.
-    unfold lookup, spec_of at 1, lookup_spec. cbn [fst snd].
+              run_lookups_fk c ca h = map (spec_of c) h).
+  { clear h. induction h as [|[key field] rest IH]; intros ca Hinv; cbn [run_lookups_fk run_lookups_with map]; auto.
+    unfold lookup_fk, lookup_with, cache_key_fk, spec_of at 1, lookup_spec. cbn [fst snd].
     destruct (root_by_name c key) as [[r ct]|] eqn:R.
     - assert (Hq : c_query c = Some ct /\ r = RQuery).
       { unfold root_by_name in R. rewrite Hm in R. destruct (c_query c) as [qt|]; [|discriminate].
@@ -424,25 +485,57 @@ Proof.
 Qed.
 
 Definition h_cross : list (str * str) := [(n_Mutation, n_foo); (n_Query, n_foo)].
-Lemma lookups_refuted : run_lookups client_ok [] h_cross <> map (spec_of client_ok) h_cross.
+Lemma lookups_fk_refuted : run_lookups_fk client_ok [] h_cross <> map (spec_of client_ok) h_cross.
 Proof. vm_compute. discriminate. Qed.
 (* ... and a field of the other root type is returned instead of a KeyError *)
 Definition h_cross_missing : list (str * str) := [(n_Mutation, n_baz); (n_Query, n_baz)].
-Lemma lookups_refuted_missing :
-  run_lookups client_ok [] h_cross_missing =
+Lemma lookups_fk_refuted_missing :
+  run_lookups_fk client_ok [] h_cross_missing =
     [LOp {| o_root := RMutation; o_type := n_Mutation; o_field := n_baz |};
      LOp {| o_root := RMutation; o_type := n_Mutation; o_field := n_baz |}] /\
   spec_of client_ok (n_Query, n_baz) = LNoField.
 Proof. vm_compute. split; reflexivity. Qed.
 
-Example lookups_nonvacuous :
+Example lookups_fk_nonvacuous :
   hist_consistent [(n_Query, n_foo); (n_Mutation, n_baz); (n_Query, n_foo); (n_Query, n_baz); (n_Long, n_foo)] = false /\
   hist_consistent [(n_Query, n_foo); (n_Mutation, n_baz); (n_Query, n_foo); (n_Long, n_Long); (n_Query, n_bar)] = true /\
-  run_lookups client_ok [] [(n_Query, n_foo); (n_Mutation, n_baz); (n_Query, n_foo)] =
+  run_lookups_fk client_ok [] [(n_Query, n_foo); (n_Mutation, n_baz); (n_Query, n_foo)] =
     [LOp {| o_root := RQuery; o_type := n_Query; o_field := n_foo |};
      LOp {| o_root := RMutation; o_type := n_Mutation; o_field := n_baz |};
      LOp {| o_root := RQuery; o_type := n_Query; o_field := n_foo |}].
 Proof. vm_compute. repeat split. Qed.
+
+(* the same two histories on the cache as it is now *)
+Lemma lookups_fixed_on_witnesses :
+  run_lookups client_ok [] h_cross = map (spec_of client_ok) h_cross /\
+  run_lookups client_ok [] h_cross_missing = map (spec_of client_ok) h_cross_missing /\
+  run_lookups client_ok [] (rev h_cross) = map (spec_of client_ok) (rev h_cross) /\
+  run_lookups_fk client_ok [] (rev h_cross) <> map (spec_of client_ok) (rev h_cross).
+Proof. vm_compute. repeat split; try reflexivity. discriminate. Qed.
+
+Lemma field_keyed_cache_refuted :
+  root_names_dotless client_ok = true /\
+  run_lookups_fk client_ok [] h_cross <> map (spec_of client_ok) h_cross /\
+  run_lookups client_ok [] h_cross = map (spec_of client_ok) h_cross.
+Proof. split; [reflexivity|]. split; [exact lookups_fk_refuted | exact (proj1 lookups_fixed_on_witnesses)]. Qed.
+
+(* the dotless hypothesis is needed by the MODEL (strings are arbitrary there; graphql-core refuses such names) *)
+Definition client_dotted : client :=
+  {| c_query := Some {| ct_name := [65]%N; ct_fields := [[98;46;99]%N] |};
+     c_mutation := Some {| ct_name := [65;46;98]%N; ct_fields := [[99]%N] |} |}.
+Lemma lookups_dotted_names_collide :
+  root_names_dotless client_dotted = false /\
+  run_lookups client_dotted [] [([65]%N, [98;46;99]%N); ([65;46;98]%N, [99]%N)] <>
+  map (spec_of client_dotted) [([65]%N, [98;46;99]%N); ([65;46;98]%N, [99]%N)].
+Proof. vm_compute. split; [reflexivity|discriminate]. Qed.
+
+Example lookups_nonvacuous :
+  root_names_dotless client_ok = true /\
+  run_lookups client_ok [] [(n_Mutation, n_foo); (n_Query, n_foo); (n_Query, n_baz); (n_Mutation, n_foo); (n_Long, n_foo)] =
+    [LOp {| o_root := RMutation; o_type := n_Mutation; o_field := n_foo |};
+     LOp {| o_root := RQuery; o_type := n_Query; o_field := n_foo |}; LNoField;
+     LOp {| o_root := RMutation; o_type := n_Mutation; o_field := n_foo |}; LNoType].
+Proof. vm_compute. split; reflexivity. Qed.
 
 (* ------------------------------------------------------------------------------------------------ *)
 (* the scalar table                                                                                  *)
